@@ -122,6 +122,17 @@ def make_unit(iset, cube_name, cube_pred, memarch='PMSA', nregions=1, props=('C1
             return instr
         contracts = dict(all_contracts())
         contracts[A.fetch_instruction] = Contract(A.fetch_instruction, fetch_spec, engine=True)
+        # exclusive monitors: their state lives outside the machine state; the answers are oracles of the unit
+        excl = {}
+
+        def excl_oracle(which):
+            def spec(e, c, paddress, processorid, size):
+                if which not in excl:
+                    excl[which] = e.fresh_bool('excl.' + which)
+                return excl[which]
+            return spec
+        contracts[A.is_exclusive_local] = Contract(A.is_exclusive_local, excl_oracle('local'), engine=True)
+        contracts[A.is_exclusive_global] = Contract(A.is_exclusive_global, excl_oracle('global'), engine=True)
         # record exception entries (bodies are still interpreted)
         for nm in ('take_svc_exception', 'take_smc_exception', 'take_data_abort_exception', 'take_hyp_trap_exception',
                    'take_undef_instr_exception'):
@@ -275,6 +286,10 @@ def make_unit(iset, cube_name, cube_pred, memarch='PMSA', nregions=1, props=('C1
                     if eng.prove(sym.zb(v == k)):
                         return k
                 return v
+            # ExclusiveMonitorsPass() as seen by this path: local monitor, and the global monitor for shareable memory
+            sh = [v for k, v in eng.all_inputs.items() if k.startswith('xlat') and k.endswith('.shareable')]
+            shareable = sym.SymBool(sh[0]) if sh else False
+            excl_pass = land(excl.get('local', False), lor(lnot(shareable), excl.get('global', False)))
             for r in rows:
                 if r.opfields is not None:
                     # operation verified at function level (props/c03.py, loop cut): here decode must hand exactly the
@@ -304,6 +319,7 @@ def make_unit(iset, cube_name, cube_pred, memarch='PMSA', nregions=1, props=('C1
                     continue            # decode-only row
                 st0 = dict(init)
                 st0['mem'] = mem.init
+                st0['oracle.excl_pass'] = excl_pass
                 exp, s_unpred, s_undef = SS.spec_step(r, st0, instr, 'arm' if iset == 'arm' else 'thumb', oplen, fix=fix)
                 skip = lor(lnot(r.match(instr)), s_unpred, s_undef)
                 named = []
@@ -319,9 +335,9 @@ def make_unit(iset, cube_name, cube_pred, memarch='PMSA', nregions=1, props=('C1
                 named.append(('mem', lor(skip, sym.SymBool(mem.term == exp['mem']))))
                 ob = eng.oblige_all('post', '%s: final state == architectural decode+operation (all leaves; frame)' % tag, named)
                 ob.props = [r.family or fam, dprop]
-                ob = eng.oblige('post.unpred', '%s: not executed normally where the architecture says UNDEFINED' % tag,
+                ob = eng.oblige('post.unpred', '%s: not executed normally where the architecture says UNDEFINED / takes an exception' % tag,
                                 lor(lnot(r.match(instr)), lnot(s_undef)))
-                ob.props = [dprop]
+                ob.props = [r.family or fam, dprop]
         # ---- decode totality: a word taken as UNDEFINED (no opcode object built) is not a valid, predictable encoding
         # of any row of the table
         if kname == 'none' and took == ['take_undef_instr_exception'] and 'fetch-abort' not in events:
@@ -331,6 +347,7 @@ def make_unit(iset, cube_name, cube_pred, memarch='PMSA', nregions=1, props=('C1
             want = 'arm' if iset == 'arm' else ('t16' if iset == 'thumb16' else 't32')
             base = Cpu(dict(init), 'arm' if iset == 'arm' else 'thumb', instr, oplen)
             base.st['mem'] = mem.init
+            base.st['oracle.excl_pass'] = False
             claims = []
             for r, mt in live_rows(iset, instr):
                 unp, und = row_unpred_undef(r, instr, base)
@@ -401,6 +418,7 @@ def table_unpredictable(iset, instr, oplen, init, mem0):
     from spec.cpu import Cpu
     base = Cpu(dict(init), 'arm' if iset == 'arm' else 'thumb', instr, oplen)
     base.st['mem'] = mem0
+    base.st['oracle.excl_pass'] = False
     out = []
     for r, mt in live_rows(iset, instr):
         out.append(land(mt, row_unpred_undef(r, instr, base)[0]))
